@@ -71,10 +71,23 @@ ghost("pruned", "Set[Name]")          # the set of names whose result rows the l
 ghost("pruned_n", "int")              # how many times results were pruned
 opaque_global("EVENTS_DIR")
 contract("load_data", kind="assumed", params=[("filename", "Opaque")], returns="List[Opaque]", fresh_result=True, note="json/toml loader (list of group dicts)")
-contract("_get_jobs_to_resubmit", kind="assumed", params=[("cluster", "Ref[Cluster]"), ("output", "Opaque"), ("failed", "bool"), ("missing", "bool"), ("successful", "bool")],
-         returns="Set[Name]", ensures=["subset(result, ghost.universe)"],
-         note="BOUNDED only: names selected by the flags from results.json (failed/canceled, successful) and the jobs without a result (missing); "
-              "a list mixing Result and Job objects, outside the typed subset")
+define("SEL_RES", ["output"], "uf('results_of', 'Dict[Name,Ref[Result]]', output)")
+# the names selected by the flags: failed/canceled rows, successful rows, configured jobs without a row
+define("SELECTED", ["x", "cluster", "output", "failed", "missing", "successful"],
+       "((failed and x in SEL_RES(output) and (R_FAIL(SEL_RES(output)[x]) or R_CANC(SEL_RES(output)[x])))"
+       " or (successful and x in SEL_RES(output) and R_SUCC(SEL_RES(output)[x]))"
+       " or (missing and x not in SEL_RES(output) and x in nameset(val(cluster._job_status).jobs)))")
+contract("_get_jobs_to_resubmit", file=FRS,
+         params=[("cluster", "Ref[Cluster]"), ("output", "Opaque"), ("failed", "bool"), ("missing", "bool"), ("successful", "bool")],
+         returns="Set[Name]", fresh_result=True,
+         requires=["not isnone(cluster._job_status)", "nameset(val(cluster._job_status).jobs) == ghost.universe",
+                   # every row of results.json belongs to a configured job (C03: one row per configured job, nothing else)
+                   "subset(keys(SEL_RES(output)), ghost.universe)"],
+         ensures=["subset(result, ghost.universe)",
+                  # C13: exactly the jobs selected by the flags
+                  "forall(x, Name, (x in result) == SELECTED(x, cluster, output, failed, missing, successful))",
+                  "unchanged(Job.name) and unchanged(Job.state) and unchanged(Job.blocked_by)"],
+         raises={"InvalidConfiguration": {"frame": True}})
 contract("_reset_results", kind="assumed", params=[("output", "Opaque"), ("jobs_to_resubmit", "Set[Name]")],
          ensures=["ghost.pruned == jobs_to_resubmit and ghost.pruned_n == old(ghost.pruned_n) + 1",
                   # result pruning: exactly the rows of these names are removed (ResultsAggregator.clear_results_for_resubmission)
@@ -92,6 +105,8 @@ contract("resubmit_jobs", file=FRS,
          params=[("output", "Opaque"), ("failed", "bool"), ("missing", "bool"), ("successful", "bool"), ("submission_groups_file", "Opt[Opaque]"), ("verbose", "bool")],
          locals={"ret": "int", "jobs_to_resubmit": "Set[Name]", "updated_blocking_jobs_by_name": "Dict[Name,Set[Name]]", "groups": "List[Opaque]", "found": "bool"},
          requires=["not ghost.cluster_lock", "forall(c, Cluster, not c.g_promoted)", "subset(ghost.collected, ghost.universe)",
+                   # results.json of the completed submission has rows of configured jobs only (C03: exactly one entry per configured job)
+                   "subset(keys(SEL_RES(output)), ghost.universe)",
                    # scope: without --submission-groups-file.  With it the replaced groups are whatever the file holds (SubmissionGroup(**mapping)); the
                    # group-parameter domain a submitter round needs is then not re-validated by the command, so nothing is claimed for that path
                    "isnone(submission_groups_file)"],
